@@ -327,9 +327,27 @@ def bounded_cross_check(report, tier, seed):
     for _ in range(60000 if tier == "thorough" else 6000):
         op = rng.choice(ops2 + [ir.BooleanToInteger])
         exprs.append(op(rng.choice(d1)) if op is ir.BooleanToInteger else op(rng.choice(d1), rng.choice(d1)))
+    # directed family: two literals around one variable, every arithmetic operator pair, both nestings
+    # (re-association / constant folding candidates; 0.1, 0.2, 0.7, 3.0 round differently when re-associated)
+    lits = [ir.IntegerLiteral(0), ir.IntegerLiteral(1), ir.IntegerLiteral(2), ir.IntegerLiteral(-3), ir.FloatLiteral(0.0), ir.FloatLiteral(1.0),
+            ir.FloatLiteral(0.1), ir.FloatLiteral(0.2), ir.FloatLiteral(3.0), ir.FloatLiteral(2.5)]
+    arith3 = [ir.Add, ir.Subtract, ir.Multiply]
+    for v in (ir.Variable("i"), ir.Variable("x")):
+        for o1 in arith3:
+            for o2 in arith3:
+                for c1 in lits:
+                    for c2 in lits:
+                        exprs.append(o2(o1(v, c1), c2))
+                        exprs.append(o2(c1, o1(v, c2)))
+                        exprs.append(o2(o1(c1, v), c2))
+    cmp_ops = [ir.Equal, ir.NotEqual, ir.GreaterThan, ir.LessThan, ir.GreaterThanOrEqual, ir.LessThanOrEqual]
+    for o in cmp_ops:
+        for c1 in lits[:4]:
+            for c2 in lits[:4]:
+                exprs.append(o(c1, c2))
     ints = [S.VI(0), S.VI(1), S.VI(2), S.VI(-1)]
     envs = []
-    for i, j, x in itertools.product(ints, ints[:3], [S.VF(0.0), S.VF(1.0), S.VF(-2.5)]):
+    for i, j, x in itertools.product(ints, ints[:3], [S.VF(0.0), S.VF(1.0), S.VF(-2.5), S.VF(0.7)]):
         envs.append((i, j, x))
 
     def mk_state(i, j, x):
